@@ -15,6 +15,7 @@ import GoImap.Drive.C03
 import GoImap.Drive.C10
 import GoImap.Drive.C04
 import GoImap.Drive.C11
+import GoImap.Drive.C08
 import GoImap.Drive.C06
 open GoImap
 
@@ -38,6 +39,7 @@ def dispatch (line : String) : String :=
   | "C10" :: rest => DriveC10.handle rest
   | "C04" :: rest => DriveC04.handle rest
   | "C11" :: rest => DriveC11.handle rest
+  | "C08" :: rest => DriveC08.handle rest
   | "C06" :: rest => DriveC06.handle rest
   | _ => "?\t0\tfail:unknown-property\t-"
 
